@@ -18,7 +18,9 @@ from harness.membackend import MemBackend
 
 RULE = ('cases = (configuration, history): configurations = cipher {aes_gcm 128/192/256, chacha20_poly1305} x hash {blake2b, sha2, sha3 with '
         'several lengths}; history = init (key to a file or printed), add-key shared and independent, two snapshots by two users of a random '
-        'tree with distinctive names/notes, delete, clean; for every case all backend calls (names and uploaded bytes), key files and '
+        'tree with distinctive names/notes, delete, clean; each history runs in an environment chosen by its index: cache disabled / private / '
+        'the one cache directory of the user shared with (and used in between by) an unencrypted or a differently encrypted sibling repository, '
+        'and root logger at DEBUG for a third of them; for every case all backend calls (names and uploaded bytes), key files and '
         'stdout/stderr are lifted to terms and compared item by item with the model, and scanned for every known secret; plus one unencrypted '
         'repository on which the scanner must find the secrets (self-check); evaluations = lifted items + (secret, form, haystack) scans; '
         'non-trivial = an encrypted configuration whose history uploaded at least 4 chunk objects and 2 snapshots; distinct = distinct '
@@ -41,7 +43,74 @@ def configs(ctx):
 
 
 # --------------------------------------------------------------------------- running a history on the real code
+CACHE_ENVS = ['none', 'plain-sibling', 'private', 'encrypted-sibling']
+
+
+def environment(cid):
+    """The surroundings a history runs in (a function of the case id, so a replay rebuilds it):
+    cache  none              - cache disabled
+           private           - a cache directory of its own
+           plain-sibling     - the user's ONE cache directory (as ~/.cache/replicat is), already used - and used again
+                               between the commands - for an unencrypted repository of the same user
+           encrypted-sibling - the same with a sibling repository encrypted under another cipher / hash / password
+    debug  root logger at DEBUG (what -vv does), records captured and discarded"""
+    return {'cache': CACHE_ENVS[cid % 4], 'debug': cid % 3 == 0}
+
+
+class DebugLogging:
+    """root logger at DEBUG for the duration of a history"""
+
+    def __init__(self, enabled):
+        self.enabled = enabled
+
+    def __enter__(self):
+        if self.enabled:
+            import io
+            import logging
+            self.root = logging.getLogger()
+            self.level = self.root.level
+            self.stream = io.StringIO()
+            self.handler = logging.StreamHandler(self.stream)
+            self.root.addHandler(self.handler)
+            self.root.setLevel(logging.DEBUG)
+        return self
+
+    def __exit__(self, *exc):
+        if self.enabled:
+            self.root.setLevel(self.level)
+            self.root.removeHandler(self.handler)
+
+
+class Sibling:
+    """another repository of the same user that shares the cache directory"""
+
+    def __init__(self, rng, root, kind, cache):
+        self.be = MemBackend()
+        self.tree = root / 'sibling-tree'
+        repolab.make_tree(rng, self.tree, 2, maxlen=300)
+        if kind == 'plain-sibling':
+            self.client = repolab.Client(self.be, cache=cache)
+            settings = repolab.settings_for(None, hashing={'name': 'sha2', 'bits': 256})
+        else:
+            self.client = repolab.Client(self.be, password=b'sibling-password', cache=cache)
+            settings = repolab.settings_for(('chacha20_poly1305', None), hashing={'name': 'sha3', 'bits': 384})
+        assert self.client.init(settings).ok
+        self.n = 0
+
+    def use(self):
+        """one ordinary command on the sibling repository (every one of them unlocks it)"""
+        self.n += 1
+        o = self.client.snapshot([self.tree], note=f'sibling-{self.n}') if self.n % 2 == 1 else self.client.list_snapshots()
+        assert o.ok, o.detail
+
+
 def run_history(rng, scratch, cid, cipher, hashing):
+    env = environment(cid)
+    with DebugLogging(env['debug']):
+        return _run_history(rng, scratch, cid, cipher, hashing, env)
+
+
+def _run_history(rng, scratch, cid, cipher, hashing, env):
     root = Path(scratch) / f'c05-{cid}'
     root.mkdir(parents=True, exist_ok=True)
     tag = rng.randbytes(5).hex()
@@ -54,57 +123,68 @@ def run_history(rng, scratch, cid, cipher, hashing):
         Path(p).rename(q)
         renamed[str(q)] = d
     files = renamed
+    cache = None if env['cache'] == 'none' else root / 'cache'
+    sibling = Sibling(rng, root, env['cache'], cache) if env['cache'].endswith('sibling') else None
+
+    def between():
+        if sibling is not None:
+            sibling.use()
+    between()
     be = MemBackend()
     pw = {'owner': b'pass-owner-' + rng.randbytes(6).hex().encode(), 'shared': b'pass-shared-' + rng.randbytes(6).hex().encode(),
           'indep': b'pass-indep-' + rng.randbytes(6).hex().encode()}
     note1, note2 = f'note-alpha-{rng.randbytes(5).hex()}', f'note-beta-{rng.randbytes(5).hex()}'
     outputs = []          # (command, stdout, stderr)
+    failures = []         # commands of the honest history that ended in an error
     keyfiles = {}
     to_file = {'owner': cid % 2 == 0, 'shared': cid % 2 == 1, 'indep': cid % 3 == 0}
-    owner = repolab.Client(be, password=pw['owner'])
+    owner = repolab.Client(be, password=pw['owner'], cache=cache)
     cheap = {'encryption': {'kdf': {'name': 'scrypt', 'n': 4}}}
+
+    def done(cmd, o):
+        outputs.append((cmd, o.stdout, o.stderr))
+        if not o.ok:
+            failures.append(f'{cmd}: {o.detail}')
+        between()
+        return o
 
     def keypath(u):
         return str(root / f'{u}.key') if to_file[u] else None
     o = owner.init(repolab.settings_for(cipher, hashing=hashing), key_output_path=keypath('owner'))
     assert o.ok, o.detail
-    outputs.append(('init', o.stdout, o.stderr))
+    done('init', o)
     keys = {'owner': owner.key}
     for u, shared in (('shared', True), ('indep', False)):
-        o = owner.add_key(pw[u], shared=shared, settings=cheap, key_output_path=keypath(u))
-        assert o.ok, o.detail
-        outputs.append(('add-key', o.stdout, o.stderr))
-        keys[u] = repolab.serialize_key(o.value.new_key)
+        o = done('add-key', owner.add_key(pw[u], shared=shared, settings=cheap, key_output_path=keypath(u)))
+        if o.ok:
+            keys[u] = repolab.serialize_key(o.value.new_key)
     for u in keys:
-        if to_file[u]:
+        if to_file[u] and (root / f'{u}.key').exists():
             keyfiles[u] = (root / f'{u}.key').read_bytes()
-    clients = {u: repolab.Client(be, password=pw[u], key=keys[u]) for u in keys}
-    s1 = clients['owner'].snapshot([tree], note=note1)
-    assert s1.ok, s1.detail
-    outputs.append(('snapshot', s1.stdout, s1.stderr))
+    clients = {u: repolab.Client(be, password=pw[u], key=keys[u], cache=cache) for u in keys}
+    snapshots = []
+    s1 = done('snapshot', clients['owner'].snapshot([tree], note=note1))
+    if s1.ok:
+        snapshots.append((s1.value, 'owner'))
     # second tree for the shared user: one common file, one new
     victim = sorted(files)[0]
     Path(victim).write_bytes(rng.randbytes(400))
     files2 = dict(files)
     files2[victim] = Path(victim).read_bytes()
-    s2 = clients['shared'].snapshot([tree], note=note2)
-    assert s2.ok, s2.detail
-    outputs.append(('snapshot', s2.stdout, s2.stderr))
-    s3 = clients['indep'].snapshot([Path(victim)], note=None)
-    assert s3.ok, s3.detail
-    outputs.append(('snapshot', s3.stdout, s3.stderr))
+    for u, paths, note in (('shared', [tree], note2), ('indep', [Path(victim)], None)):
+        if u in clients:
+            o = done('snapshot', clients[u].snapshot(paths, note=note))
+            if o.ok:
+                snapshots.append((o.value, u))
     before_delete = dict(be.objects)
-    d = clients['owner'].delete_snapshots([s1.value.name])
-    assert d.ok, d.detail
-    outputs.append(('delete', d.stdout, d.stderr))
-    c = clients['owner'].clean()
-    assert c.ok, c.detail
-    outputs.append(('clean', c.stdout, c.stderr))
+    if s1.ok:
+        done('delete', clients['owner'].delete_snapshots([s1.value.name]))
+    done('clean', clients['owner'].clean())
     shutil.rmtree(tree, ignore_errors=True)
     return {'cid': cid, 'cipher': cipher, 'hashing': hashing, 'log': list(be.log), 'outputs': outputs, 'keyfiles': keyfiles, 'keys': keys,
-            'passwords': pw, 'to_file': to_file, 'snapshots': [(s1.value, 'owner'), (s2.value, 'shared'), (s3.value, 'indep')],
+            'passwords': pw, 'to_file': to_file, 'snapshots': snapshots, 'failures': failures, 'env': env,
             'files': [files, files2, {victim: files2[victim]}], 'notes': [note1, note2, None], 'before_delete': before_delete,
-            'deleted': s1.value.name, 'config': before_delete['config']}
+            'deleted': s1.value.name if s1.ok else None, 'config': before_delete['config']}
 
 
 # --------------------------------------------------------------------------- lifting what was written
@@ -461,8 +541,13 @@ def check_case(ctx, rep: Report, h, encrypted=True):
     cid = h['cid']
     label = f'{h["cipher"][0] if h["cipher"] else "none"}{"-" + str(h["cipher"][1]) if h["cipher"] and h["cipher"][1] else ""}/' \
             f'{(h["hashing"] or {"name": "blake2b"})["name"]}'
-    replay = {'cid': cid, 'cipher': h['cipher'], 'hashing': h['hashing'], 'seed': h['seed']}
-    rep.count('config:' + label)
+    env = h.get('env') or environment(cid)
+    label += f' [cache: {env["cache"]}{", debug logging" if env["debug"] else ""}]'
+    replay = {'cid': cid, 'cipher': h['cipher'], 'hashing': h['hashing'], 'seed': h['seed'], 'environment': env}
+    rep.count('config:' + label.split(' [')[0])
+    rep.count('env:cache=' + env['cache'])
+    if env['debug']:
+        rep.count('env:debug-logging')
     # ---- taint scan (C): model-free, does not depend on the lifting
     hits, n = taint_scan(h)
     rep.evaluations += n
@@ -475,6 +560,11 @@ def check_case(ctx, rep: Report, h, encrypted=True):
         seen.add(key)
         rep.violations.append({'what': f'[{label}] {hit["secret"]} found in {hit["form"]} form in {hit["where"]}',
                                'signature': {'secret': hit['secret'], 'where': hit['where']}, 'replay': replay})
+    if h.get('failures'):
+        # a command of the honest history failed on the implementation: what was written has been scanned, nothing to lift
+        rep.case((cid, h['seed']), nontrivial=False)
+        rep.disagreements.append({'what': f'[{label}] commands of the honest history failed: {"; ".join(h["failures"])[:400]}', 'replay': replay})
+        return
     try:
         lift = Lift(h)
         items = lift.lift_all()
